@@ -249,6 +249,37 @@ theorem nm_batch_update_isWitness (α y : F) (P V : G) (w : NmWitness F G) (adds
     exact apply_delta_nm_witness α y _ _ _ _ _ w.d w.c P V hdel hb
       (createCoefficients_eval α y adds dels hd) hw
 
+/-- **Multi-batch update of a non-membership witness**, for every history not deleting … (the element
+was never a member; `hdel` keeps the evaluation defined). -/
+theorem nm_multi_batch_update_isWitness (α y : F) (P V : G) (w : NmWitness F G) (bs : List (List F × List F))
+    (hd : ∀ b ∈ bs, ∀ d ∈ b.2, d + α ≠ 0) (hdel : ∀ b ∈ bs, dad y b.2 ≠ 0)
+    (hw : IsNmWitness α y w P V) :
+    IsNmWitness α y (nmMultiBatchUpdate w y (published α V bs)) P (runAcc α V bs) := by
+  have hD := prodD_ne_zero α y V bs hdel
+  unfold IsNmWitness at *
+  unfold nmMultiBatchUpdate evaluateDeltas
+  simp only [hD, if_false]
+  cases hp : deltasPoly y 1 (published α V bs) with
+  | nil =>
+    simp only [polyEvalG]
+    rw [deltasPoly_nil α y V bs 1 hp]; exact hw
+  | cons p0 ps =>
+    rw [polyEvalG_some, ← hp]
+    simp only [nmApply]
+    have key := deltasPoly_eval α y V bs 1 hd
+    rw [one_smul] at key
+    set PD := prodD y (published α V bs)
+    set PA := prodA y (published α V bs)
+    set E := evalG (deltasPoly y 1 (published α V bs)) y
+    have e1 : (y + α) • ((PA * PD⁻¹) • w.c + PD⁻¹ • E) + (w.d * (PA * PD⁻¹)) • P
+        = (PA * PD⁻¹) • ((y + α) • w.c + w.d • P) + PD⁻¹ • ((y + α) • E) := by
+      module
+    rw [e1, hw, key]
+    have : (PA * PD⁻¹) • V + PD⁻¹ • (PD • runAcc α V bs - PA • V) = (PD⁻¹ * PD) • runAcc α V bs := by
+      module
+    rw [this, inv_mul_cancel₀ hD, one_smul]
+
+
 /-- non-vacuity: a concrete history over ℚ-like arithmetic is covered (hypotheses satisfiable) -/
 example : dad (5 : F) [] ≠ 0 := by simp [dad]
 
